@@ -493,7 +493,7 @@ pub fn main(ctx: &Ctx) {
     ctx.assume("distance tolerance 2e-4 + 2e-4*|d| against f64 reference; for Cosine/InnerProduct either max(0,1-dot(q_n,v)) or 1-cos(q,v) is accepted (the engine's documented normalisation band makes them differ by <= ~1 %)");
     ctx.assume("timeouts configured at 30 s so no response is produced under degradation; a Degraded path is excluded, not judged");
     run_committed_replays(ctx, &C06);
-    run_pbt(ctx, &C06, ctx.tier.pick(1_500, 40_000));
+    run_pbt(ctx, &C06, ctx.tier.pick(10_000, 200_000));
 }
 
 pub fn replay(ctx: &Ctx, v: &serde_json::Value) -> Option<i32> {
